@@ -393,7 +393,7 @@ def compare_family(P, rep, rule, kind, name, members, group, exceptions, method_
                               witness="the same model parameters in a %s and in a %s" % (f, ref))
 
 
-UNMODELLED_RE = re.compile(r"\b(std::find(_if)?|std::transform|std::copy(_n)?|std::distance|std::accumulate|std::any_of|std::all_of|std::none_of|std::for_each|std::fill(_n)?|std::max_element|std::min_element|std::rotate_copy)\b|^\s*continue$|\[lambda|\(anonymous namespace\)::\w+\(")
+UNMODELLED_RE = re.compile(r"\b(std::find(_if)?|std::transform|std::copy(_n)?|std::distance|std::accumulate|std::any_of|std::all_of|std::none_of|std::for_each|std::fill(_n)?|std::max_element|std::min_element|std::rotate_copy)\b|\[lambda|\(anonymous namespace\)::\w+\(")
 
 
 def unmodelled(lines):
